@@ -37,5 +37,15 @@ PROPS['C10'] = {
             'not reached: proj_l1/proj_simplex based proximals (sorting), Lambert-W, product-space (group) proximals',
     'technique': 'contract-based deductive verification: symbolic execution of the real _call under the alias pattern x is out, relational obligation vs the non-aliased run, z3',
 }
+PROPS['C03'] = {
+    'level': 'proof',
+    'text': 'Deductive: the real Operator.__call__ and the two bridging functions are proved to refine the call contract for an arbitrary operator '
+            '(error classes, errors before the implementation is invoked - ghost counter -, result in range, out returned as the very object, '
+            'value independent of stale out, x untouched); the implementation contract (new result object that is no view, in-place == out-of-place, '
+            'frames) is proved for every proximal, default operator and expression-class _call over arbitrary sizes/values.',
+    'note': 'trusted: pyvc interpreter, element-API contracts, Operator.__new__ dispatch contract (cross-checked natively over all 200+ Operator subclasses, '
+            'bounded unit); _calls of tensor_ops / pspace_ops / transforms are not under contract here',
+    'technique': 'contract-based deductive verification: refinement of the call contract by the real __call__ (symbolic execution, z3), per-class implementation contracts',
+}
 for _k in PROPS:
     NOT_APPLICABLE.pop(_k, None)
